@@ -68,6 +68,7 @@ class ParInfo:
         # ... of which those in a paragraph nested below one of its links: they are part of the link's one run, but WHERE in
         # it no property says (a nested paragraph is concluded before the text around it) - membership is checked, not position
         self.loose = {t for x in vis if x not in own and ptag(x) in ('w:t', 'm:t') for t in TOKEN.findall(x.text or '')}
+        self.link_nested = any(x not in own for x in vis)       # a paragraph (text box) below one of its links, with or without text
         self.run_tabs = sum(1 for x in self.own if ptag(x) == 'w:tab' and ptag(x.getparent()) == 'w:r')
         self.breaks = sum(1 for x in self.own if ptag(x) == 'w:br')
         self.is_list = self.numId is not None and self.ilvl is not None
